@@ -829,6 +829,13 @@ v('C04', 'fire', E, 'util.mm_prod(R, V_skew))', 'util.mm_prod(V_skew, R))', 'ope
 v('C04', 'fire', E, '(-util.skew_matrix(rho_n + Omega_n) +', '(-util.skew_matrix(rho_n) +', 'Earth rate dropped from the attitude block')
 
 
+# ---------------------------------------------------------------- refactorings (fifth session)
+# Behaviour-preserving refactorings written by sub-agents that saw nothing of /verif (each comes
+# with an equivalence demonstration against the original on random inputs); must stay silent.
+vp('C01 C02 C13 C15', 'silent', 'refactors/R04.diff',
+   'compute_increments_from_imu: helpers extracted, to_numpy, np.newaxis, np.concatenate, module constants')
+
+
 # ----------------------------------------------------------------------- runner
 def _run_variant(args):
     prop, var, root, check_py = args
